@@ -13,7 +13,7 @@ use nom::{
 };
 
 use super::{
-    common::{identifier, skip_ws, skip_ws_and_comments, value_reference},
+    common::{identifier, keywords, skip_ws, skip_ws_and_comments, value_reference},
     error::ParserResult,
     in_braces, into_inner,
     object_identifier::object_identifier_value,
@@ -141,10 +141,10 @@ fn import(input: Input<'_>) -> ParserResult<'_, Import> {
             skip_ws_and_comments(tag(FROM)),
             skip_ws_and_comments(pair(
                 global_module_reference,
-                opt(into_inner(skip_ws_and_comments(alt((
-                    tag(WITH_SUCCESSORS),
-                    tag(WITH_DESCENDANTS),
-                ))))),
+                opt(skip_ws_and_comments(alt((
+                    keywords(WITH_SUCCESSORS),
+                    keywords(WITH_DESCENDANTS),
+                )))),
             )),
         ),
     )))
@@ -177,7 +177,7 @@ fn environments(
                 _ => TaggingEnvironment::Implicit,
             },
         )),
-        skip_ws_and_comments(map(opt(tag(EXTENSIBILITY_IMPLIED)), |m| {
+        skip_ws_and_comments(map(opt(keywords(EXTENSIBILITY_IMPLIED)), |m| {
             if m.is_some() {
                 ExtensibilityEnvironment::Implied
             } else {
